@@ -20,7 +20,7 @@ import itertools
 import json
 from collections import deque
 
-from harness.core import Ctx, VERIF, cbool, clist, cnat, copt, cz, guarded
+from harness.core import COQ, Ctx, VERIF, cbool, clist, cnat, copt, cz, guarded
 
 ID = "C09"
 ANCHORS = ["solvor/flow.py", "solvor/network_simplex.py"]
@@ -686,6 +686,7 @@ def run(ctx: Ctx):
                 "negative arc or INFEASIBLE after >= 1 augmentation / network_simplex run with >= 2 iterations / assignment with "
                 "n, m >= 2; distinct = canonical JSON of the instance")
     ctx.proof_step(["C09"])
+    if (COQ / "Props" / "C09_deep.v").exists(): ctx.proof_step(["C09"], props_file="Props/C09_deep.v")
     big = ctx.tier == "thorough"
     n_mcf = ctx.budget(420, 6000)
     n_ns = ctx.budget(420, 6000)
